@@ -60,8 +60,8 @@ mut('c05-numpy-list-late-write', 'C05', 'R05.1', ('data.py', "        shutil.mov
 mut('c05-handler-no-reset', 'C05', 'R05.2', ('task.py', "                    self._data.on_run_error()\n                    self._data = None\n", "                    self._data.on_run_error()\n"))
 mut('c05-handler-no-on_run_error', 'C05', 'R05.2', ('task.py', "                    self._data.on_run_error()\n                    self._data = None\n", "                    self._data = None\n"))
 mut('c05-handler-swallows', 'C05', 'R05.2', ('task.py', "                    self._data = None\n                raise error\n", "                    self._data = None\n                self.logger.error(error)\n                return None\n"))
-mut('c05-process-result-outside-try', 'C05', 'R05.2', ('task.py', "                self._process_run_result(run_result)\n            except Exception as error:\n                if self._data:\n                    self._data.on_run_error()\n                    self._data = None\n                raise error\n",
-                                                        "            except Exception as error:\n                if self._data:\n                    self._data.on_run_error()\n                    self._data = None\n                raise error\n            self._process_run_result(run_result)\n"))
+mut('c05-process-result-outside-try', 'C05', 'R05.2', ('task.py', "                self._process_run_result(run_result)\n            except BaseException as error:\n                # also KeyboardInterrupt / SystemExit raised inside run must not leave a half-initialised data object behind\n                if self._data:\n                    self._data.on_run_error()\n                    self._data = None\n                raise error\n",
+                                                        "            except BaseException as error:\n                # also KeyboardInterrupt / SystemExit raised inside run must not leave a half-initialised data object behind\n                if self._data:\n                    self._data.on_run_error()\n                    self._data = None\n                raise error\n            self._process_run_result(run_result)\n"))
 mut('c05-mismatch-saved', 'C05', 'R05.3', ('task.py', "            if not issubclass(self.data_class, InMemoryData):\n                raise ValueError(\n                    f'{fullname(self.__class__)}: When ignoring return type mismatch, InMemoryData data class is required.'\n                )\n", ""))
 mut('c05-dir-error-rmtree', 'C05', 'R05.4', ('data.py', "        if self.error_path.exists():\n            shutil.rmtree(self.error_path)\n        shutil.move(str(self.tmp_path), str(self.error_path))", "        shutil.rmtree(self.tmp_path)"))
 mut('c05-continues-init-cleans', 'C05', 'R05.4', ('data.py', "        if not self.tmp_path.exists():\n            self.tmp_path.mkdir()\n        self._dir = self.tmp_path",
@@ -85,10 +85,8 @@ mut('c18-remove-only-on-error', 'C18', 'R18.1',
      "                except Exception:\n                    if data_log_handler is not None:\n                        self.logger.removeHandler(data_log_handler)\n                        data_log_handler.close()\n                    raise\n"))
 mut('c18-append-mode', 'C18', 'R18.3', ('data.py', "return logging.FileHandler(self.log_path, mode='w')", "return logging.FileHandler(self.log_path)"))
 mut('c18-handler-on-wrong-path', 'C18', 'R18.3', ('data.py', "return logging.FileHandler(self.log_path, mode='w')", "return logging.FileHandler(self._base_dir / 'task.log', mode='w')"))
-mut('c18-init-after-run', 'C18', 'R18.2', ('task.py', "            try:\n                self._init_run_info()\n                if self._data and self._data.is_logging:", "            try:\n                if self._data and self._data.is_logging:"),
-    ('task.py', "                self._process_run_result(run_result)\n            except Exception as error:", "                self._init_run_info()\n                self._process_run_result(run_result)\n            except Exception as error:"))
 mut('c18-finish-in-finally', 'C18', 'R18.2', ('task.py', "                raise error\n            self._finish_run_info()\n", "                raise error\n            finally:\n                self._finish_run_info()\n"))
-mut('c18-finish-before-save', 'C18', 'R18.2', ('task.py', "                self._process_run_result(run_result)\n            except Exception as error:", "                self._finish_run_info()\n                self._process_run_result(run_result)\n            except Exception as error:"),
+mut('c18-finish-before-save', 'C18', 'R18.2', ('task.py', "                self._process_run_result(run_result)\n            except BaseException as error:", "                self._finish_run_info()\n                self._process_run_result(run_result)\n            except BaseException as error:"),
     ('task.py', "                raise error\n            self._finish_run_info()\n", "                raise error\n"))
 mut('c18-params-filtered', 'C18', 'R18.4', ("task.py", "'parameters': {p.name: p.value_repr() for p in self.parameters.values()},", "'parameters': {p.name: p.value_repr() for p in self.parameters.values() if not p.ignore_persistence},"))
 mut('c18-no-input-keys', 'C18', 'R18.4', ("task.py", "            if isinstance(self._config, TaskParameterConfig):\n                self._run_info['input_tasks'] = self._config.input_tasks\n", ""))
@@ -178,7 +176,7 @@ mut('c20-dry-ignored', 'C20', 'R20.2', ('utils/migration.py', "        if dry:\n
 mut('c20-copy-reversed', 'C20', 'R20', ('utils/migration.py', "                copytree(old_task.data_path, new_task.data_path)", "                copytree(new_task.data_path, old_task.data_path)"))
 mut('c20-overwrite-existing', 'C20', 'R20.2', ('utils/migration.py', "            print(f'    target already exists')\n            continue", "            print(f'    target already exists')"))
 mut('c20-context-dropped', 'C20', 'R20.3', ('utils/migration.py', "global_vars=config.global_vars, context=config.context, part=config._part", "global_vars=config.global_vars, part=config._part"))
-mut('c20-pair-by-slugname', 'C20', 'R20.4', ('utils/migration.py', "    old_chain = {t.fullname: t for t in", "    old_chain = {t.slugname: t for t in"))
+mut('c20-pair-by-slugname', 'C20', 'R20.4', ('utils/migration.py', "    old_chain = dict(config.chain(parameter_mode=False).tasks)", "    old_chain = {t.slugname: t for t in config.chain(parameter_mode=False).tasks.values()}"))
 mut('c20-has-data-via-value', 'C20', 'R20.4', ('utils/migration.py', "        if not old_task.has_data:", "        if old_task.value is None:"))
 mut('c20-marker-in-source', 'C20', 'R20.1', ('utils/migration.py', "            print('    copied')", "            print('    copied')\n            (old_task.data_path.parent / 'MIGRATED').touch()"))
 mut('c20-run-info-copy-from-new', 'C20', 'R20', ('utils/migration.py', "            print('    copied')", "            copyfile(new_task._data_without_value.run_info_path, old_task._data_without_value.run_info_path)\n            print('    copied')"))
@@ -506,3 +504,27 @@ mut('c06-named-sort-key-lexical', 'C06', 'R06.4', ('data.py', "        self._val
 ben('ben-c19-get-by-name', ['C19'], ('utils/testing.py', "    return test_chain[task.fullname(test_chain.config)]", "    return test_chain.get(task.fullname(test_chain.config))"))
 ben('ben-c08-edges-from-per-task', ['C08', 'C07'], ('chain.py', "            for input_task in task.input_tasks.values():\n                if not isinstance(input_task, Task):\n                    continue\n                G.add_edge(input_task, task)",
                                                     "            G.add_edges_from((input_task, task) for input_task in task.input_tasks.values() if isinstance(input_task, Task))"))
+
+
+# ---------------------------------------------------------------------------------------------- round 8 (omission / ordering / scope)
+mut('c02-empty-registry-string', 'C02', 'R02.4', ('parameter.py', "        if reprs:\n            return '###'.join(reprs)\n        return None", "        if not self._parameters:\n            return None\n        return '###'.join(reprs)"))
+mut('c05-json-publish-in-with', 'C05', 'R05.10', ('data.py', "            json.dump(self.value, f, indent=2, sort_keys=True)\n        self._publish()", "            json.dump(self.value, f, indent=2, sort_keys=True)\n            self._publish()"))
+mut('c06-numpy-list-tmp-reused', 'C06', 'R06.11', ('data.py', "        if self.tmp_path.exists():\n            shutil.rmtree(self.tmp_path)\n        self.tmp_path.mkdir()\n\n        for i, v in enumerate(self.value):", "        self.tmp_path.mkdir(exist_ok=True)\n\n        for i, v in enumerate(self.value):"))
+mut('c08-gate-before-last-edge', 'C08', 'R08.1', ('chain.py', "                G.add_edge(input_task, task)\n\n        if not nx.is_directed_acyclic_graph(G):\n            raise ValueError('Chain is not acyclic')", "                if not nx.is_directed_acyclic_graph(G):\n                    raise ValueError('Chain is not acyclic')\n                G.add_edge(input_task, task)"))
+mut('c09-prepare-before-namespace', 'C09', 'R09.4', ('chain.py', "                if config.namespace:\n                    if use.namespace:\n                        use.namespace = f'{config.namespace}::{use.namespace}'\n                    else:\n                        use.namespace = config.namespace\n                use.context = config.context\n                use._prepare()\n",
+                                                     "                use.context = config.context\n                use._prepare()\n                if config.namespace:\n                    if use.namespace:\n                        use.namespace = f'{config.namespace}::{use.namespace}'\n                    else:\n                        use.namespace = config.namespace\n"))
+mut('c09-repr-name-no-part-in-namespace', 'C09', 'R09.13', ('config.py', "            else:\n                name = f'{self.namespace}::{self._filepath}'\n            if self._part:", "            else:\n                return f'{self.namespace}::{self._filepath}'\n            if self._part:"))
+mut('c10-group-first-level-only', 'C10', 'R10.8', ('task.py', "            return fullname.split(':')[-1] == name", "            return fullname.split(':', 1)[1] == name"))
+mut('c15-presence-before-lock', 'C15', 'R15.8', ('cache.py', "        lock = FileLock(str(filepath) + '.lock', mode=0o664)\n        with lock:\n            if filepath.exists() and not force:", "        stored = filepath.exists()\n        lock = FileLock(str(filepath) + '.lock', mode=0o664)\n        with lock:\n            if stored and not force:"))
+mut('c14-refuse-after-open', 'C14', 'R14.11', ('cache.py', "        if value is None and not self.allow_nones:\n            raise CacheException(f'The cache value for key {key} is None')\n        with filepath.open('w', encoding='utf-8') as f:\n", "        with filepath.open('w', encoding='utf-8') as f:\n            if value is None and not self.allow_nones:\n                raise CacheException(f'The cache value for key {key} is None')\n"))
+mut('c18-finish-before-store', 'C18', 'R18.2', ('task.py', "            self._finish_run_info()\n        return self._data\n", "        return self._data\n"), ('task.py', "        if self._data.is_persisting:\n            self._data.save()", "        self._finish_run_info()\n        if self._data.is_persisting:\n            self._data.save()"))
+mut('c18-detach-for-exceptions-only', 'C18', 'R18.1', ('task.py', "                finally:\n                    if data_log_handler is not None:\n                        self.logger.removeHandler(data_log_handler)\n                        data_log_handler.close()\n",
+                                                       "                except Exception:\n                    if data_log_handler is not None:\n                        self.logger.removeHandler(data_log_handler)\n                        data_log_handler.close()\n                    raise\n                if data_log_handler is not None:\n                    self.logger.removeHandler(data_log_handler)\n                    data_log_handler.close()\n"))
+ben('ben-c08-all-tasks-local', ['C08', 'C07'], ('chain.py', "        for task in self.tasks.values():\n            for input_task in task.input_tasks.values():\n                if not isinstance(input_task, Task):", "        all_tasks = self.tasks.values()\n        for task in all_tasks:\n            for input_task in task.input_tasks.values():\n                if not isinstance(input_task, Task):"))
+ben('ben-c11-compiled-pattern', ['C11'], ('utils/data.py', "def search_and_replace_placeholders(obj, replacements):", "_PLACEHOLDER = re.compile(r'{(.*?)}')\n\n\ndef search_and_replace_placeholders(obj, replacements):"),
+    ('utils/data.py', "        new_string, replacement_count = re.subn(r'{(.*?)}', _replace, string)", "        new_string, replacement_count = _PLACEHOLDER.subn(_replace, string)"))
+ben('ben-c18-filehandler-keywords', ['C18'], ('data.py', "        return logging.FileHandler(self.log_path, mode='w')", "        log_file = self.log_path\n        return logging.FileHandler(filename=log_file, mode='w')"))
+ben('ben-c13-force-requested-local', ['C13', 'C07'], ('chain.py', "            tasks = list(tasks)\n        for chain in self.chains.values():\n            chain.force(tasks, **kwargs)", "            requested = [t for t in tasks]\n        else:\n            requested = tasks\n        for chain_name in self.chains:\n            self.chains[chain_name].force(requested, **kwargs)"))
+ben('ben-c14-reuse-flag', ['C14', 'C15', 'C16'], ('cache.py', "        with lock:\n            if filepath.exists() and not force:", "        with lock:\n            reuse_stored = False\n            if filepath.exists():\n                reuse_stored = not force\n            if reuse_stored:"))
+ben('ben-c02-registry-comprehension', ['C02', 'C03', 'C12'], ('parameter.py', "        reprs = []\n        for name, parameter in sorted(self._parameters.items()):\n            repr = parameter.repr\n            if repr is not None:\n                reprs.append(repr)\n        if reprs:",
+                                                              "        all_reprs = [parameter.repr for _, parameter in sorted(self._parameters.items())]\n        reprs = [r for r in all_reprs if r is not None]\n        if reprs:"))
